@@ -305,10 +305,13 @@ def stepJoinBlocked (s : State) (t : Nat) : State × List Ev × Outcome :=
   | [] => (setPc s t Pc.stopJoin, [], Outcome.cont)
   | u :: rest => ({ s with tmp := upd s.tmp t rest, pc := upd s.pc t Pc.stopJoin }, [Ev.join t u], Outcome.op)
 
-def stepStopDrop (c : Cfg) (s : State) (t : Nat) : State × List Ev × Outcome :=
-  match s.dq t with
-  | j :: rest => ((dropJob c { s with dq := upd s.dq t rest } t j).1, (dropJob c { s with dq := upd s.dq t rest } t j).2, Outcome.cont)
-  | [] =>
+/-- `stop()` returns: its local queue is destroyed. The order in which a `std::deque` destroys its elements is not
+specified (libstdc++ destroys the full middle nodes first), so the next closure is the `k`-th remaining one, cyclically -/
+def stepStopDrop (c : Cfg) (s : State) (t k : Nat) : State × List Ev × Outcome :=
+  match (s.dq t)[k % (s.dq t).length]? with
+  | some j => ((dropJob c { s with dq := upd s.dq t ((s.dq t).erase j) } t j).1,
+               (dropJob c { s with dq := upd s.dq t ((s.dq t).erase j) } t j).2, Outcome.cont)
+  | none =>
     if s.dtor t then
       ({ s with destroyed := true, dtor := upd s.dtor t false, pc := upd s.pc t Pc.idle }, [Ev.destroyed t], Outcome.cont)
     else (setPc s t Pc.idle, [Ev.stopEnd t], Outcome.cont)
@@ -368,14 +371,15 @@ def stepWAfterJob (c : Cfg) (s : State) (t : Nat) : State × List Ev × Outcome 
       ({ s with todo := upd s.todo t [Act.destroy], pc := upd s.pc t Pc.idle }, [], Outcome.cont)
     else stepFin s t
 
-/-- one small step of thread `t`; `k` resolves the only nondeterminism (which waiter `notify_one` wakes) -/
+/-- one small step of thread `t`; `k` resolves the nondeterminism (which waiter `notify_one` wakes, which closure of a
+swapped-out queue is destroyed next) -/
 def step (c : Cfg) (s : State) (t k : Nat) : State × List Ev × Outcome :=
   match s.pc t with
   | Pc.idle => stepIdle s t k
   | Pc.afterEnq j acc => stepAfterEnq c s t j acc
   | Pc.stopJoin => stepStopJoin s t
   | Pc.joinBlocked => stepJoinBlocked s t
-  | Pc.stopDrop => stepStopDrop c s t
+  | Pc.stopDrop => stepStopDrop c s t k
   | Pc.wLoop => stepWLoop s t
   | Pc.wCvCheck => stepWCvCheck s t
   | Pc.wCvBlocked => stepWCvBlocked s t
@@ -398,14 +402,6 @@ def enabled (s : State) (t : Nat) : Bool :=
       | [] => true
   | _ => true
 
-/-- what thread `t` does between two scheduling points of the baton harness -/
-def threadStep (c : Cfg) : Nat → State → Nat → State × List Ev
-  | 0, s, _ => (s, [])
-  | fuel + 1, s, t =>
-    match step c s t 0 with
-    | (s1, e1, Outcome.cont) => ((threadStep c fuel s1 t).1, e1 ++ (threadStep c fuel s1 t).2)
-    | (s1, e1, _) => (s1, e1)
-
 /-- a scheduled step: thread `t` moves if it is enabled; `k` picks the waiter a `notify_one` wakes -/
 def sstep (c : Cfg) (s : State) (tk : Nat × Nat) : State :=
   if enabled s tk.1 then (step c s tk.1 tk.2).1 else s
@@ -413,5 +409,21 @@ def sstep (c : Cfg) (s : State) (tk : Nat × Nat) : State :=
 def run (c : Cfg) (s : State) : List (Nat × Nat) → State
   | [] => s
   | tk :: rest => run c (sstep c s tk) rest
+
+/-- what thread `t` does between two scheduling points of the baton harness: small steps up to and including the
+first one that ends with a synchronising operation (the harness's condition variable notifies the oldest waiter) -/
+def threadStep (c : Cfg) : Nat → State → Nat → State × List Ev
+  | 0, s, _ => (s, [])
+  | fuel + 1, s, t =>
+    if enabled s t then
+      match step c s t 0 with
+      | (s1, e1, Outcome.cont) => ((threadStep c fuel s1 t).1, e1 ++ (threadStep c fuel s1 t).2)
+      | (s1, e1, _) => (s1, e1)
+    else (s, [])
+
+/-- a run of the baton scheduler: the threads in the order they are given the baton -/
+def batonRun (c : Cfg) (fuel : Nat) (s : State) : List Nat → State
+  | [] => s
+  | t :: rest => batonRun c fuel (threadStep c fuel s t).1 rest
 
 end Cocls.Pool
